@@ -214,7 +214,8 @@ fn main() {
     let _ = std::fs::create_dir_all(&schedule_dir);
     let mut cfg = Config::new();
     cfg.failure_persistence = FailurePersistence::File(Some(std::path::PathBuf::from(&schedule_dir)));
-    cfg.max_steps = MaxSteps::FailAfter(2_000_000);
+    // a (legal) spin loop must not count as a failure: give up the iteration silently
+    cfg.max_steps = MaxSteps::ContinueAfter(1_000_000);
     cfg.silence_warnings = true;
     cfg.stack_size = 0x40000;
     let t0 = std::time::Instant::now();
